@@ -934,6 +934,28 @@ func (x *FnExec) instr(fr *frame, n *node, in ssa.Instruction) error {
 		env[in] = Val{S: r, T: in.Type()}
 	case *ssa.MakeChan:
 		env[in] = Val{S: x.freshRef(st, "mkchan", reach), T: in.Type()}
+		// `guard makechan <ElemType|*> [in F]: expr` over `size` (the buffer size)
+		elemName := ""
+		if ct, ok := in.Type().Underlying().(*types.Chan); ok {
+			elemName = types.TypeString(ct.Elem(), func(*types.Package) string { return "" })
+		}
+		for _, g := range x.eng.specs.Guards {
+			if g.Kind != "makechan" || (g.Target != "*" && g.Target != elemName) {
+				continue
+			}
+			if g.In != "" && !strings.HasSuffix(funcKey(x.top), "."+g.In) && !strings.HasSuffix(funcKey(fr.fn), "."+g.In) {
+				continue
+			}
+			ctx := &evalCtx{env: n.env, st: n.st, old: fr.oldState, block: n.b, at: in, extra: map[string]Val{"size": x.value(fr, env, in.Size)}}
+			goal, err := x.evalBool(fr, g.Expr, ctx)
+			if err != nil {
+				x.errf("guard makechan %s in %s: %v", g.Target, funcKey(fr.fn), err)
+				continue
+			}
+			o := x.addObl("guard", "makechan:"+g.Target, reach, goal, "guard makechan "+g.Target+": "+g.Src, in.Pos())
+			o.Props = g.Props
+			g.Hits++
+		}
 	case *ssa.MakeClosure:
 		fn := in.Fn.(*ssa.Function)
 		var binds []Val
